@@ -690,7 +690,9 @@ def replay(cases, workers=16, chunk=200):
     ctx = get_context("fork")
     with ctx.Pool(processes=min(workers, len(chunks)), maxtasksperchild=10) as pool:
         # a chunk of 200 cases takes a second or two; an evaluation that does not terminate must not hang the check
-        res = pool.map_async(_worker, chunks).get(timeout=int(os.environ.get("VERIF_REPLAY_TIMEOUT", "1800")))
+        # chunksize=1: one task = one chunk, otherwise map_async batches many chunks into a task and maxtasksperchild
+        # recycles a worker only after tens of thousands of cases (several GB per worker in the thorough tier)
+        res = pool.map_async(_worker, chunks, chunksize=1).get(timeout=int(os.environ.get("VERIF_REPLAY_TIMEOUT", "1800")))
     return [r for ch in res for r in ch]
 
 
